@@ -108,9 +108,6 @@ theorem frozen_applyOp {k : K} (h : TInv k) (op : KOp) (p : Nat) (hp : (k.getP p
           { cap := cap, isFul := false, handler := g, rid := k.nextRid } p
       exact ⟨by rw [a1, b1]; rfl, by rw [a2, b2]; rfl⟩
     · exact ⟨rfl, rfl⟩
-  | swap =>
-    simp only [applyOp, swap]
-    split <;> exact ⟨rfl, rfl⟩
   | popJob =>
     simp only [applyOp, popJob]
     split
